@@ -26,6 +26,8 @@ import (
 	"fmt"
 	"hash/fnv"
 	"strings"
+	"sync"
+	"time"
 
 	"github.com/bytom/bytom/protocol/bc"
 	"github.com/bytom/bytom/protocol/bc/types"
@@ -1200,6 +1202,69 @@ func run(c *Ctx) error {
 	nBlk := c.N(150, 1500)
 	for i := 0; i < nBlk; i++ {
 		k.doBlock()
+	}
+
+	// ---- concurrent stage: an identity is a function of the content alone, so computing the ids
+	// of many transactions and headers from several goroutines at once (as the node does: block
+	// validation, mempool, API) must give exactly the ids computed one after the other
+	{
+		nC := c.N(400, 3000)
+		g.small = true
+		txs := make([]*types.TxData, 0, nC)
+		hdrs := make([]*types.BlockHeader, 0, nC)
+		for i := 0; i < nC; i++ {
+			txs = append(txs, g.tx())
+			hdrs = append(hdrs, g.header())
+		}
+		g.small = false
+		type ids struct {
+			tx  bc.Hash
+			hdr bc.Hash
+			ok  bool
+		}
+		one := func(i int) (r ids) {
+			defer func() {
+				if recover() != nil {
+					r.ok = false
+				}
+			}()
+			r.tx = types.MapTx(cloneTx(txs[i])).ID
+			r.hdr = cloneHeader(hdrs[i]).Hash()
+			r.ok = true
+			return
+		}
+		seq := make([]ids, nC)
+		for i := range seq {
+			seq[i] = one(i)
+		}
+		const workers = 8
+		deadline := time.Now().Add(time.Duration(c.N(4, 20)) * time.Second)
+		rounds, failed := 0, false
+		for round := 0; (round < 3 || time.Now().Before(deadline)) && !failed; round++ {
+			rounds++
+			par := make([]ids, nC)
+			var wg sync.WaitGroup
+			for w := 0; w < workers; w++ {
+				wg.Add(1)
+				go func(w int) {
+					defer wg.Done()
+					for i := w; i < nC; i += workers {
+						par[i] = one(i)
+					}
+				}(w)
+			}
+			wg.Wait()
+			for i := range seq {
+				if seq[i] != par[i] {
+					st.Fail(fmt.Sprintf("class=concurrent-id-differs: computed from %d goroutines at once, transaction/header %d gets id %x/%x, alone it gets %x/%x", workers, i, par[i].tx.Bytes()[:6], par[i].hdr.Bytes()[:6], seq[i].tx.Bytes()[:6], seq[i].hdr.Bytes()[:6]),
+						map[string]interface{}{"kind": "concurrent", "tx": cTx(txs[i]), "header": cHeader(hdrs[i])})
+					failed = true
+					break
+				}
+			}
+		}
+		st.Distribution["concurrent-rounds"] = rounds
+		st.Count("concurrent-stage")
 	}
 
 	// witnesses of the recorded finding last: hlib keeps only the first failures
